@@ -52,12 +52,33 @@ pub enum GraphInline {
 impl GraphBlock {
     fn is_sparce_list(&self) -> bool {
         match self {
-            GraphBlock::BulletList(items) => items
-                .iter()
-                .any(|item| item.iter().filter(|block| block.is_paragraph()).count() > 1),
-            GraphBlock::OrderedList(items) => items
-                .iter()
-                .any(|item| item.iter().filter(|block| block.is_paragraph()).count() > 1),
+            GraphBlock::BulletList(items) | GraphBlock::OrderedList(items) => {
+                items.iter().any(|item| {
+                    item.iter().filter(|block| block.is_paragraph()).count() > 1
+                        || item.windows(2).any(|pair| pair[0].absorbs(&pair[1]))
+                })
+            }
+            _ => false,
+        }
+    }
+
+    /// Whether `next`, written on the line right after this block, would be read as a part of
+    /// it: a rule under text is the underline of a setext heading, a table under text (also
+    /// under the last text of a quote or of a list) is more text, a quote continues a quote
+    /// and table rows continue a table. Such blocks need a blank line between them.
+    fn absorbs(&self, next: &GraphBlock) -> bool {
+        match (self, next) {
+            (
+                GraphBlock::Plain(text) | GraphBlock::Para(text),
+                GraphBlock::HorizontalRule | GraphBlock::Table(_, _, _),
+            ) => !text.is_empty(),
+            (GraphBlock::BlockQuote(_), GraphBlock::BlockQuote(_) | GraphBlock::Table(_, _, _)) => {
+                true
+            }
+            (
+                GraphBlock::BulletList(_) | GraphBlock::OrderedList(_) | GraphBlock::Table(_, _, _),
+                GraphBlock::Table(_, _, _),
+            ) => true,
             _ => false,
         }
     }
